@@ -1,6 +1,7 @@
 import Driver.Util
 import Sqfs.Spec.TarNumber
 import Sqfs.Model.TarSparse
+import Sqfs.Model.TarConv
 namespace Driver.C04
 open Sqfs.Tar
 
@@ -76,6 +77,35 @@ def showIter (es : List IterEntry) (e : IterEnd) : String :=
   let body := " | ".intercalate (es.map one)
   (if es.isEmpty then "" else body ++ " | ") ++ (if e = .eof then "end=1" else "end=-1")
 
+/-- fold of `process_tarball` over the iterator's entries on the flat tree; `none` = tar2sqfs fails -/
+def convertWith (pe : ConvOpts → CEntry → Action) (o : ConvOpts) (es : List IterEntry) : Option (List TNode × List (List Bytes × Nat × Nat)) :=
+  es.foldl (fun acc x => match acc with
+    | none => none
+    | some (t, devs) =>
+      let link := if fmt x.mode = S_IFLNK then x.link else none
+      if fmt x.mode = S_IFLNK ∧ link.isNone then none                      -- `read_link` fails: no target
+      else
+      match pe o ⟨x.name, x.mode, x.uid, x.gid, x.mtime, x.hardLink, link⟩ with
+      | .skip => some (t, devs)
+      | .root e => if e.hardLink ∨ fmt e.mode ≠ S_IFDIR then none else some (t, devs)
+      | .node e => match addGeneric o t e with
+        | none => none
+        | some t' => some (t', devs ++ [(Sqfs.Path.splitSlash e.name, x.devMajor, x.devMinor)])) (some ([], []))
+
+def describeNode (devs : List (List Bytes × Nat × Nat)) (n : TNode) : String :=
+  let path := toHexTok (Sqfs.Path.joinSlash n.path)
+  let perm := s!" 0{octStr (n.mode % 4096)} {n.uid} {n.gid}"
+  let f := fmt n.mode
+  if n.hardLink then "hardlink " ++ path ++ " " ++ optHex n.target
+  else if f = S_IFDIR then "dir " ++ path ++ perm ++ s!" mtime={n.modTime}"
+  else if f = S_IFLNK then "slink " ++ path ++ perm ++ s!" mtime={n.modTime} " ++ optHex n.target
+  else if f = S_IFREG then "file " ++ path ++ perm ++ s!" mtime={n.modTime}"
+  else if f = S_IFIFO then "pipe " ++ path ++ perm ++ s!" mtime={n.modTime}"
+  else if f = S_IFSOCK then "sock " ++ path ++ perm ++ s!" mtime={n.modTime}"
+  else
+    let d := (devs.find? (·.1 = n.path)).getD (n.path, 0, 0)
+    "nod " ++ path ++ perm ++ s!" mtime={n.modTime} " ++ (if f = S_IFCHR then "c" else "b") ++ s!" {d.2.1} {d.2.2}"
+
 def step (line : String) : String :=
   match words line with
   | ["rn", h] => withHex h fun b => if b.isEmpty then "bad-op" else showNum (readNumber b)
@@ -114,6 +144,19 @@ def step (line : String) : String :=
     | .eof => "eof"
     | .err => "err"
     | .ok d rest => "ok " ++ showDecoded d ++ s!" consumed={s.length - rest.length}"
+  | ["canonip", h] => withHex h fun s => let (b, ok) := canonInPlace s; (if ok then "0 " else "-1 ") ++ toHexTok b
+  | [op, rb, sflag, kflag, dmt, duid, dgid, dmode, h] =>
+    if op ≠ "t2s" ∧ op ≠ "t2scur" then "bad-op" else
+    match fromHex rb, dmt.toNat?, duid.toNat?, dgid.toNat?, parseOct dmode, fromHex h with
+    | some rb, some dmt, some duid, some dgid, some dmode, some s =>
+      let o : ConvOpts := { rootBecomes := if rb.isEmpty then none else some rb, noSymlinkRetarget := sflag = "1",
+                            keepTime := kflag ≠ "1", defMtime := dmt, defUid := duid, defGid := dgid, defMode := dmode }
+      let (es, e) := iterate s
+      if e ≠ .eof then "fail"
+      else match convertWith (if op = "t2s" then processEntry else processEntryCur) o es with
+        | none => "fail"
+        | some (t, devs) => "ok " ++ ";".intercalate (t.map (describeNode devs))
+    | _, _, _, _, _, _ => "bad-op"
   | ["iter", h] => withHex h fun s => let (es, e) := iterate s; showIter es e
   | ["itercur", h] => withHex h fun s => let (es, e) := iterateCur s; showIter es e
   | _ => "bad-op"
